@@ -213,13 +213,15 @@ def nested_restart_cases(harness, snap, dest, keys, workdir, tagbase):
 
 
 def durable_image(ops, k, root, pattern, rng):
-    """directory image after power loss at prefix k.
-    Everything up to the last sync(2) is durable; after it, a file's data writes are durable up to
-    that file's last fsync; pattern decides the fate of the remaining (unsynced) operations:
-      'none'  – nothing unsynced survives            'all' – everything survives (= process crash)
-      'rand'  – each unsynced data write survives with probability 1/2, possibly torn at a
-                512-byte boundary; unsynced namespace operations (create/mkdir/truncate/unlink/
-                rename) survive together up to a random point (ordered metadata journalling)"""
+    """directory image after POWER LOSS at prefix k, in the property's fault model: file DATA that
+    was not fsynced (or covered by a later sync(2)) may be lost or torn; namespace operations
+    (create, mkdir, rename, unlink, truncate) are taken as durable when issued (journalled
+    metadata), see DESIGN C04.
+      'none' – no unsynced data write survives
+      'rand' – each unsynced data write survives with probability 1/2, possibly torn at a
+               512-byte boundary
+    Returns (image, unsynced_catalog_data): whether a header / category_name write is among the
+    unsynced ones (hypothesis of the C04 theorem: a file is written only after its header is durable)."""
     last_sync = -1
     last_fsync = {}
     for i in range(k):
@@ -228,34 +230,30 @@ def durable_image(ops, k, root, pattern, rng):
         elif ops[i]["kind"] == "fsync":
             last_fsync[ops[i]["path"]] = i
     img = S.Image(root)
-    meta_cut = rng.randrange(last_sync + 1, k + 1) if pattern == "rand" else (k if pattern == "all" else last_sync + 1)
+    unsynced_cat = False
     for i in range(k):
         op = ops[i]
         kd = op["kind"]
         if kd in ("ack", "sync", "fsync"):
             continue
-        durable = i <= last_sync or (kd == "write" and i <= last_fsync.get(op["path"], -1))
-        if durable or pattern == "all":
+        if kd != "write":
             img.apply(op)
             continue
-        if pattern == "none":
-            # a file fsynced later keeps its own creation (fsync of a new file persists its inode;
-            # the directory entry is assumed durable as well, see DESIGN C04)
-            if kd == "create" and last_fsync.get(op["path"], -1) > i:
-                img.apply(op)
+        # the .tmp name of a year file and its final name are one file: fsync/sync of either counts
+        durable = i <= last_sync or i <= last_fsync.get(op["path"], -1)
+        if durable:
+            img.apply(op)
             continue
-        # rand
-        if kd == "write":
-            if rng.random() < 0.5:
-                d = op["data"]
-                if len(d) > 512 and rng.random() < 0.5:
-                    cut = 512 * rng.randrange(1, (len(d) + 511) // 512)
-                    op = dict(op, data=d[:cut])
-                img.apply(op)
-        else:
-            if i < meta_cut or (kd == "create" and last_fsync.get(op["path"], -1) > i):
-                img.apply(op)
-    return img
+        p = op["path"]
+        if p.endswith("category_name") or ((p.endswith(".bin") or p.endswith(".bin.tmp")) and (op["off"] or 0) < HEADERSIZE):
+            unsynced_cat = True
+        if pattern == "rand" and rng.random() < 0.5:
+            d = op["data"]
+            if len(d) > 512 and rng.random() < 0.5:
+                cut = 512 * rng.randrange(1, (len(d) + 511) // 512)
+                op = dict(op, data=d[:cut])
+            img.apply(op)
+    return img, unsynced_cat
 
 
 def run(pid, cfg, seed, tier, workdir, log, harness, driver, replay_lines=None):
@@ -356,9 +354,11 @@ def run(pid, cfg, seed, tier, workdir, log, harness, driver, replay_lines=None):
                 patterns = [("-", snap)]
             else:
                 prng = random.Random(seed * 1000003 + hi * 1009 + k)
-                patterns = [("none", durable_image(ops, k, root, "none", prng))]
+                im0, ucat = durable_image(ops, k, root, "none", prng)
+                patterns = [("none", im0)]
                 for r in range(wcfg.get("rand_patterns", {}).get(tier, 1 if tier == "quick" else 4)):
-                    patterns.append(("rand%d" % r, durable_image(ops, k, root, "rand", prng)))
+                    patterns.append(("rand%d" % r, durable_image(ops, k, root, "rand", prng)[0]))
+                jj = "u" if ucat else "*"
             for pname, snap in patterns:
                 dest = os.path.join(workdir, "img-%d-%d-%s" % (hi, k, pname))
                 line = "%s %d %d %s %s %s" % (wcfg.get("op", "walcrash"), year, a, jj, ",".join(keys), " ".join(steps))
